@@ -1,3 +1,172 @@
 import Driver.Proto
-/-! placeholder driver for the equals / validity models (C17/C18) -/
-def main : IO Unit := IO.println "err not-built"
+import GraphSlam.Model.Equals
+import GraphSlam.Model.Validity
+
+/-! Driver for the `equals` (C17) and construction/validity (C18) models: one request per line, one reply per line.
+
+Grammar (blank-separated tokens, floats as 16 hex digits):
+
+    pose     := <kind> <n> <float>^n                          kind ∈ r2 r3 se2 se3
+    vertex   := <id> pose
+    estimate := P pose | A <rank> <dim>^rank <n> <float>^n | S <float> | N
+    offset   := N | O | P pose
+    optint   := - | <int>
+    edge     := <cls> <nids> <int>^nids <rank> <dim>^rank <n> <float>^n estimate offset optint     cls ∈ odo lm c<k>
+    graph    := <ne> edge^ne <nv> vertex^nv
+
+    eq pose|vertex|edge|graph <tol> X X      ->  ok True | ok False | exc <ExceptionClass>
+
+    objkind  := r2 | r3 | se2 | se3 | A | N | S
+    vdesc    := <id> <kind>
+    edesc    := <cls> <nids> <int>^nids objkind(estimate) objkind(offset) <rank> <dim>^rank
+    construct <nv> vdesc^nv <ne> edesc^ne    ->  ok g=<i,..> len=<n> b=<i,..;i,..>   (b: indices into the vertex list)
+                                                 | exc <ExceptionClass>
+    valid <bound:0|1> <nv> vdesc^nv edesc    ->  ok True | ok False     (is_valid() with e.vertices = the given list / None)
+-/
+
+open Driver
+open GraphSlam.Model.Cmp GraphSlam.Model.Equals GraphSlam.Model.Validity
+
+abbrev P := StateT (List String) Option
+
+def tok : P String := fun s => match s with | [] => none | t :: ts => some (t, ts)
+def pNat : P Nat := do let t ← tok; match t.toNat? with | some n => pure n | none => failure
+def pInt : P Int := do let t ← tok; match t.toInt? with | some n => pure n | none => failure
+def pFloat : P Float := do let t ← tok; match parseFloat t with | some x => pure x | none => failure
+
+def rep {α : Type} (p : P α) : Nat → P (List α)
+  | 0 => pure []
+  | n + 1 => do let x ← p; let xs ← rep p n; pure (x :: xs)
+
+def counted {α : Type} (p : P α) : P (List α) := do let n ← pNat; rep p n
+
+def pKind : P PoseKind := do let t ← tok; match PoseKind.ofName? t with | some k => pure k | none => failure
+
+def pCls : P EdgeClass := do
+  let t ← tok
+  if t == "odo" then pure .odometry
+  else if t == "lm" then pure .landmark
+  else if t.startsWith "c" then
+    match (t.drop 1).toString.toNat? with
+    | some k => pure (.custom k)
+    | none => failure
+  else failure
+
+def pPose : P (Pose Float) := do let k ← pKind; let c ← counted pFloat; pure { kind := k, comps := c }
+def pVertex : P (Vertex Float) := do let i ← pInt; let p ← pPose; pure { id := i, pose := p }
+
+def pEstimate : P (Estimate Float) := do
+  let t ← tok
+  match t with
+  | "P" => do let p ← pPose; pure (.pose p)
+  | "A" => do let s ← counted pNat; let d ← counted pFloat; pure (.array s d)
+  | "S" => do let x ← pFloat; pure (.scalar x)
+  | "N" => pure .none
+  | _ => failure
+
+def pOffset : P (Offset Float) := do
+  let t ← tok
+  match t with
+  | "N" => pure .none
+  | "O" => pure .other
+  | "P" => do let p ← pPose; pure (.pose p)
+  | _ => failure
+
+def pOptInt : P (Option Int) := do
+  let t ← tok
+  if t == "-" then pure none else match t.toInt? with | some n => pure (some n) | none => failure
+
+def pEdge : P (Edge Float) := do
+  let c ← pCls
+  let ids ← counted pInt
+  let sh ← counted pNat
+  let info ← counted pFloat
+  let est ← pEstimate
+  let off ← pOffset
+  let oid ← pOptInt
+  pure { cls := c, vertexIds := ids, infoShape := sh, info := info, estimate := est, offset := off, offsetId := oid }
+
+def pGraph : P (Graph Float) := do
+  let es ← counted pEdge
+  let vs ← counted pVertex
+  pure { edges := es, vertices := vs }
+
+def fmtRes : Except PyErr Bool → String
+  | .ok true => "ok True"
+  | .ok false => "ok False"
+  | .error e => "exc " ++ e.name
+
+def pEq : P String := do
+  let what ← tok
+  let tol ← pFloat
+  match what with
+  | "pose" => do let a ← pPose; let b ← pPose; pure (fmtRes (poseEquals tol a b))
+  | "vertex" => do let a ← pVertex; let b ← pVertex; pure (fmtRes (vertexEquals tol a b))
+  | "edge" => do let a ← pEdge; let b ← pEdge; pure (fmtRes (edgeEquals tol a b))
+  | "graph" => do let a ← pGraph; let b ← pGraph; pure (fmtRes (graphEquals tol a b))
+  | _ => failure
+
+def pObjKind : P ObjKind := do
+  let t ← tok
+  match t with
+  | "A" => pure .ndarray
+  | "N" => pure .none
+  | "S" => pure .scalar
+  | _ => match PoseKind.ofName? t with | some k => pure (.pose k) | none => failure
+
+def pVDesc : P VertexDesc := do let i ← pInt; let k ← pKind; pure { id := i, kind := k }
+
+def pEDesc : P EdgeDesc := do
+  let c ← pCls
+  let ids ← counted pInt
+  let est ← pObjKind
+  let off ← pObjKind
+  let sh ← counted pNat
+  pure { cls := c, vertexIds := ids, estimate := est, offset := off, infoShape := sh }
+
+def commaNats (l : List Nat) : String := ",".intercalate (l.map toString)
+
+/-- index of each bound vertex in the vertex list (descriptors may repeat, so the model's own indices are reported) -/
+def boundIdx (vs : List VertexDesc) (e : EdgeDesc) : String :=
+  match bind (vs.map (·.id)) e.vertexIds with
+  | .ok js => commaNats js
+  | .error _ => "?"
+
+def pConstruct : P String := do
+  let vs ← counted pVDesc
+  let es ← counted pEDesc
+  match construct harnessCustom vs es with
+  | .error e => pure ("exc " ++ e.name)
+  | .ok g =>
+    pure ("ok g=" ++ commaNats g.gradientIndex ++ " len=" ++ toString g.lenGradient ++ " b=" ++ ";".intercalate (es.map (boundIdx vs)))
+
+def pValid : P String := do
+  let b ← pNat
+  let vs ← counted pVDesc
+  let e ← pEDesc
+  pure (if isValid harnessCustom e (if b == 0 then none else some vs) then "ok True" else "ok False")
+
+def handle (line : String) : String :=
+  let ws := (line.trimAscii.toString.splitOn " ").filter (· ≠ "")
+  let run (p : P String) (rest : List String) : String :=
+    match p rest with
+    | some (r, []) => r
+    | some (_, _) => "err trailing-tokens"
+    | none => "err bad-args"
+  match ws with
+  | "eq" :: rest => run pEq rest
+  | "construct" :: rest => run pConstruct rest
+  | "valid" :: rest => run pValid rest
+  | _ => "err bad-op"
+
+partial def loop (h : IO.FS.Stream) (out : IO.FS.Stream) : IO Unit := do
+  let line ← h.getLine
+  if line.isEmpty then return ()
+  out.putStrLn (handle line)
+  out.flush
+  loop h out
+
+def main : IO Unit := do
+  let out ← IO.getStdout
+  loop (← IO.getStdin) out
+  out.flush
